@@ -33,14 +33,14 @@ def gen(tier, seed):
         add("script_%s" % kind, "c04-bare:%s" % kind, "script_bare_scaling(%r, a, %r, %r)" % (kind, u1, u2), ["pre: 1e-6 < a < 1e6"], "script field %s: bare number takes the script's units system (symbolic magnitude)" % kind, "a: float", timeout=120)
     add("script_t_sample", "c04-bare:t_sample", "script_bare_scaling('t_sample', a, 'B', 'G')", ["pre: 1e-3 < a < 1e3"], "t_sample entries take the script's units (magnitude realised at the numpy boundary)", "a: float", timeout=20)
     add("state", "c04-bare:state", "state_bare_scaling(a, 'B', 'C')", ["pre: 1e-3 < a < 1e3"], "bare state entries take the system's units (magnitude realised at the numpy boundary)", "a: float", timeout=20)
-    add("nesting", "c04-nesting", "nesting_invariance(lv1, u1, lv2, u2, ex)", ["pre: 0 <= lv1 <= 5 and 0 <= u1 <= 10 and 0 <= lv2 <= 5 and 0 <= u2 <= 10 and 0 <= ex <= 1" if tier != "quick" else
-                                                                              "pre: 0 <= lv1 <= 5 and 0 <= u1 <= 10 and 0 <= lv2 <= 5 and u2 == (u1 * 3 + lv2 + 1) % 11 and 0 <= ex <= 1"],
-        "declaring ANY of the 11 catalogue units systems at any one or two nesting levels (script, system, network, space, species, reaction; other levels inherit), with bare numbers re-scaled or explicit unit strings, yields the same physical script",
-        "lv1: int, u1: int, lv2: int, u2: int, ex: int", viol="the physical content of a script depends on the units used to write it")
-    add("abi", "c04-abi", "abi_invariance(lv, u, eu, opt, ex)", ["pre: 0 <= lv <= 4 and 0 <= u <= 10 and 0 <= eu <= 10 and 0 <= opt <= 2 and 0 <= ex <= 1" if tier != "quick" else
-                                                                  "pre: 0 <= lv <= 4 and 0 <= u <= 10 and eu == (u * 5 + lv) % 11 and 0 <= opt <= 2 and ex == (u + lv) % 2"],
+    add("nesting", "c04-nesting", "nesting_invariance(lv1, u1, lv2, u2, ex, g)", ["pre: 0 <= lv1 <= 5 and 0 <= u1 <= 10 and 0 <= lv2 <= 5 and 0 <= u2 <= 10 and 0 <= ex <= 2 and 0 <= g <= 1" if tier != "quick" else
+                                                                                 "pre: 0 <= lv1 <= 5 and 0 <= u1 <= 10 and 0 <= lv2 <= 5 and u2 == (u1 * 3 + lv2 + 1) % 11 and 0 <= ex <= 2 and g == (u1 + lv1) % 2"],
+        "declaring ANY of the 11 catalogue units systems at any one or two nesting levels (script, system, network, space, species, reaction; other levels inherit), with bare numbers re-scaled, explicit unit strings in that system, or explicit strings in a FOREIGN system (m, ms, mol), on a grid or a graph, yields the same physical script",
+        "lv1: int, u1: int, lv2: int, u2: int, ex: int, g: int", viol="the physical content of a script depends on the units used to write it")
+    add("abi", "c04-abi", "abi_invariance(lv, u, eu, opt, ex, g)", ["pre: 0 <= lv <= 4 and 0 <= u <= 10 and 0 <= eu <= 10 and 0 <= opt <= 2 and 0 <= ex <= 2 and 0 <= g <= 1" if tier != "quick" else
+                                                                     "pre: 0 <= lv <= 4 and 0 <= u <= 10 and eu == (u * 5 + lv) % 11 and 0 <= opt <= 2 and ex == (u + lv) % 3 and 0 <= g <= 1"],
         "the arrays handed to the native engine (state, volume, k, D, sample times, t_max, dt, interval), re-expressed in SI, do not depend on the units used to describe the script, for every engine kind and output units system",
-        "lv: int, u: int, eu: int, opt: int, ex: int", viol="what reaches the engine depends on the units used to describe the model")
+        "lv: int, u: int, eu: int, opt: int, ex: int, g: int", viol="what reaches the engine depends on the units used to describe the model")
     add("output", "c04-output", "output_scaling(eu, opt)", ["pre: 0 <= eu <= 10 and 0 <= opt <= 2"], "engine output is reported in the script's units with the same SI value (every catalogue system, every engine kind)", "eu: int, opt: int")
     return "\n".join(L), conds
 
